@@ -77,7 +77,7 @@ func init() {
 	reg(&propCfg{ID: "C19", Test: "TestC19", Quick: tierCfg{8000, 8}, Thorough: tierCfg{400000, 16}})
 	reg(&propCfg{ID: "C11", Test: "TestC11", Quick: tierCfg{20000, 8}, Thorough: tierCfg{600000, 16}})
 	reg(&propCfg{ID: "C10", Test: "TestC10", Quick: tierCfg{4000, 6}, Thorough: tierCfg{150000, 16}, Fatal: true, Fuzz: []fuzzCfg{{"FuzzC10", 3 * time.Minute}, {"FuzzBytes", 3 * time.Minute}}})
-	reg(&propCfg{ID: "C20", Test: "TestC20", Quick: tierCfg{700, 8}, Thorough: tierCfg{15000, 16}})
+	reg(&propCfg{ID: "C20", Test: "TestC20", Quick: tierCfg{500, 8}, Thorough: tierCfg{15000, 16}})
 	reg(&propCfg{ID: "C16", Test: "TestC16", Quick: tierCfg{4000, 6}, Thorough: tierCfg{250000, 16}, Fatal: true})
 	reg(&propCfg{ID: "C09", Test: "TestC09", Quick: tierCfg{12000, 8}, Thorough: tierCfg{600000, 16}})
 	reg(&propCfg{ID: "C04", Test: "TestC04", Quick: tierCfg{12000, 8}, Thorough: tierCfg{600000, 16}})
